@@ -133,6 +133,8 @@ structure World where
   pendingAt : List (Msg × Option (Nat × Nat)) := []
   /-- ghost: some `Destinations.add` left a destination registered twice -/
   dupAdd : Bool := false
+  /-- ghost, parallel to `stage`: the registered destinations (`dests`) at the moment the entry was staged -/
+  stageAt : List (List Nat) := []
 deriving Repr
 
 def lookupNat {α} : List (Nat × α) → Nat → Option α
@@ -178,7 +180,7 @@ def hasDup : List Nat → Bool
 while nothing was ever added.  Returns the (unreported) errors of this message. -/
 def World.deliver (env : Env) (w : World) (m : Msg) : World × Msg × List Exc :=
   let m' := Fields.update m w.globals
-  let w0 := { w with stage := w.stage ++ [m'] }
+  let w0 := { w with stage := w.stage ++ [m'], stageAt := w.stageAt ++ [w.dests] }
   if w0.anyAdded then
     let r := World.fanOut env w0 m' w0.dests
     let isReport := m'.get? "message_type" == some (.str DESTINATION_FAILURE)
